@@ -20,7 +20,7 @@ class Contract:
                  raises=(), locals=None, loops=None, defn=None, modifies=(), kind="function",
                  status="verify", impl_of=None, self_guard=None, defaults=None, ensures_on_raise=(),
                  attrs=None, is_lemma=False, note="", total=None, properties=(), inline=False, use_at_end=(), opaque=(),
-                 aliases_ok=(), use_at_start=(), cases=()):
+                 aliases_ok=(), use_at_start=(), cases=(), view=None):
         self.key = key
         self.module = module
         self.qualname = qualname or key
@@ -50,6 +50,7 @@ class Contract:
         self.aliases_ok = set(aliases_ok)
         self.use_at_start = list(use_at_start)
         self.cases = list(cases)              # Boolean parameter fields to split on (verified once per valuation)
+        self.view = view                      # None: names opaque; 'string': names are strings (PYVC_NODE=str)
 
     def param_axioms(self, eng, st):
         return []
@@ -80,10 +81,10 @@ class Registry:
         self.contracts[c.key] = c
         return c
 
-    def lemma(self, key, params, requires, ensures, properties=(), note="", use=(), opaque=(), cases=()):
+    def lemma(self, key, params, requires, ensures, properties=(), note="", use=(), opaque=(), cases=(), view=None):
         """Register a lemma; it becomes usable in 'use' clauses (as the formula requires => ensures)."""
         c = Contract(key, params=params, requires=requires, ensures=ensures, is_lemma=True, properties=properties, note=note,
-                     use_at_start=use, opaque=opaque, cases=cases)
+                     use_at_start=use, opaque=opaque, cases=cases, view=view)
         self.add(c)
         self.lemmas[key] = c
         return c
@@ -249,6 +250,19 @@ class Registry:
                     if c is None:
                         raise OutOfSubset(f"super().{f.attr} without contract")
                     out += self.apply_contract(eng, c, [s.vars["self"]] + args, kwargs, s, node, self_expr=ast.Name(id="self", ctx=ast.Load()))
+                return out
+            # module.function(...): resolved through the file's imports to a contract keyed "module.function"
+            if (isinstance(f.value, ast.Name) and f.value.id not in st.vars and f.value.id not in eng.bound and eng.mod is not None
+                    and eng.mod.imports.get(f.value.id, (None, 0))[1] is None and f.value.id in eng.mod.imports):
+                modname = eng.mod.imports[f.value.id][0]
+                c = self.contracts.get(f"{modname}.{f.attr}")
+                if c is None:
+                    raise OutOfSubset(f"no contract for library function {modname}.{f.attr} (line {node.lineno})")
+                out = []
+                for s, vs in eng.ev_seq(list(node.args) + [k.value for k in node.keywords], st):
+                    args = vs[:len(node.args)]
+                    kwargs = {k.arg: v for k, v in zip(node.keywords, vs[len(node.args):])}
+                    out += self.apply_contract(eng, c, args, kwargs, s, node)
                 return out
             # cls.method(...) / ClassName.method(...)
             if isinstance(f.value, ast.Name) and (f.value.id == "cls" or (f.value.id not in st.vars and f.value.id not in eng.bound and self.is_class(f.value.id, eng))):
